@@ -99,3 +99,10 @@ package socks5
 //@   entry row init:  [] when s.dialer != nil && fresh(s.dialer) -> loop 0
 //@   loop 0 row apply: [call o(s)] -> continue
 //@   loop 0 row done:  [] when ret == s -> exit
+
+// C14: the JSON form of a result is exactly what encoding/json produces for a copy of the record (all tagged fields,
+// library escaping), with no post-processing
+//@ func (*ScanResult).MarshalJSON
+//@   props C14
+//@   observe json.Marshal
+//@   entry row marshal: [call json.Marshal(bind_x) as (b, e)] when ret0 == b && ret1 == e -> exit
